@@ -111,14 +111,14 @@ func genProgram(t *rapid.T, pool []vgen.Blob, caps vcompose.Caps) program {
 		n := rapid.IntRange(3, evid.Pick(8, 12)).Draw(t, "nOps")
 		var ops []opDef
 		for i := 0; i < n; i++ {
-			kinds := []string{"receive", "receive", "fetch", "fetch", "stat", "enumerate"}
+			kinds := []string{"receive", "receive", "fetch", "fetch", "stat", "enumerate", "longpoll"}
 			if caps.Remove {
 				kinds = append(kinds, "remove", "remove")
 			}
 			k := rapid.SampledFrom(kinds).Draw(t, "op")
 			o := opDef{Kind: k}
 			switch k {
-			case "receive", "fetch":
+			case "receive", "fetch", "longpoll":
 				o.Idx = []int{rapid.IntRange(0, len(pool)-1).Draw(t, "blob")}
 			case "stat":
 				o.Idx = rapid.SliceOfNDistinct(rapid.IntRange(0, len(pool)-1), 1, len(pool), rapid.ID[int]).Draw(t, "statIdx")
@@ -232,6 +232,13 @@ func runProgram(tree *vcompose.Node, pool []vgen.Blob, prog program, yieldSeed u
 				hardf("client %d: receive of %s returned %v", client, pb, sb)
 			}
 			record(obs{ref: o.Idx[0], client: client, kind: "receive", call: call, ret: ret, what: "receive"})
+		case "longpoll":
+			// what a stat or enumerate with maxwaitsec does on this store: register with its blob hub for
+			// a blob, wait (here: 300us at most) and unregister, while other clients' receives notify the hub.
+			// It observes nothing about the blob; under the race detector it is there for the hub itself.
+			blobserver.WaitForBlob(sto, time.Now().Add(300*time.Microsecond), []blob.Ref{pool[o.Idx[0]].Ref})
+			ret := clock.Add(1)
+			logf("[%d..%d] c%d long-poll for %d", call, ret, client, o.Idx[0])
 		case "remove":
 			var refs []blob.Ref
 			for _, ix := range o.Idx {
